@@ -444,6 +444,7 @@ func c14IntForms(c *vk.Ctx) {
 
 func runC14(c *vk.Ctx) {
 	c14IntForms(c)
+	c14MenuProcessor(c)
 	buf := make([]byte, 0, 64)
 	var intCount int64
 	doInt := func(n uint32, full bool, key string) {
@@ -600,6 +601,57 @@ func runC14(c *vk.Ctx) {
 		}
 		if sig != "" {
 			c.Violate(sig, msg, key, map[string]interface{}{"program": codec.Strings(prog)})
+		}
+	}
+}
+
+// c14MenuProcessor: the public batch-menu encoder used on its own and kept after an error: entries it refused (an unknown
+// batch code, a target on an entry that takes none) must not show up in what it encodes afterwards - the bytes equal
+// those of a processor that was only given the accepted entries, and decode to the documented expansion.
+func c14MenuProcessor(c *vk.Ctx) {
+	if !c.Mine(1) || !c.Want("menu-processor") {
+		return
+	}
+	c.Begin("menu-processor")
+	r := c.RNG("menu-processor")
+	type ent struct{ bop, choice, display, target string }
+	for i := 0; i < c.N(400, 20000); i++ {
+		var all, accepted []ent
+		n := r.Range(1, 8)
+		for k := 0; k < n; k++ {
+			e := ent{bop: vk.Pick(r, []string{"DOWN", "UP", "NEXT", "PREVIOUS"}), choice: fmt.Sprint(r.Intn(10)), display: fmt.Sprintf("label%d", k)}
+			if e.bop == "DOWN" {
+				e.target = fmt.Sprintf("node%d", k)
+			}
+			switch r.Intn(5) {
+			case 0:
+				e.bop = "SIDEWAYS" // unknown code
+			case 1:
+				if e.bop != "DOWN" {
+					e.target = "nowhere" // only DOWN takes a target
+				}
+			}
+			all = append(all, e)
+		}
+		mp := asm.NewMenuProcessor()
+		for _, e := range all {
+			if err := mp.Add(e.bop, e.choice, e.display, e.target); err == nil {
+				accepted = append(accepted, e)
+			}
+		}
+		ref := asm.NewMenuProcessor()
+		for _, e := range accepted {
+			ref.Add(e.bop, e.choice, e.display, e.target)
+		}
+		got, want := mp.ToLines(), ref.ToLines()
+		c.EvalN(1, 1)
+		c.Count("menu_processor_sequences", 1)
+		c.Count("menu_processor_entries_refused", int64(len(all)-len(accepted)))
+		if !bytes.Equal(got, want) {
+			gp, _, _ := codec.Decode(got)
+			wp, _, _ := codec.Decode(want)
+			c.Violate("menu-processor:refused-entry-encoded", fmt.Sprintf("entries %v, %d of them refused: the processor that saw them all encodes %v, one that was given the accepted ones only %v", all, len(all)-len(accepted), codec.Strings(gp), codec.Strings(wp)), "menu-processor", map[string]interface{}{"entries": fmt.Sprint(all)})
+			return
 		}
 	}
 }
